@@ -5,6 +5,7 @@ Values (literals) are tuples: ("int", 3) ("float", 1.5) ("str", "x") ("bool", Tr
 ("enum", "A") ("list", [v...]) ("obj", [(k, v)...]) ("var", "name").
 """
 import json
+import zlib
 
 ABSENT = ("absent",)
 
@@ -244,12 +245,31 @@ def value_str(v):
     raise ValueError(v)
 
 
+def _block_ok(text):
+    """A string that can be written as a block string whose value is the same under the raw reading and under
+    BlockStringValue(): one line, no surrounding blanks, no quote at either end, no triple quote."""
+    return (bool(text) and "\n" not in text and "\r" not in text and text == text.strip() and not text.startswith('"')
+            and not text.endswith('"') and '"""' not in text and not text.endswith("\\"))
+
+
+def sdl_value_str(v):
+    """value_str for SDL text: some strings are written as block strings (position-independent choice)."""
+    k = v[0]
+    if k == "str" and _block_ok(v[1]) and zlib.crc32(v[1].encode("utf-8", "replace")) % 3 == 0:
+        return '"""' + v[1] + '"""'
+    if k == "list":
+        return "[" + ", ".join(sdl_value_str(x) for x in v[1]) + "]"
+    if k == "obj":
+        return "{" + ", ".join("%s: %s" % (n, sdl_value_str(x)) for n, x in v[1]) + "}"
+    return value_str(v)
+
+
 def dirs_str(dirs):
     out = ""
     for d in dirs:
         out += " @" + d.name
         if d.args:
-            out += "(" + ", ".join("%s: %s" % (n, value_str(v)) for n, v in d.args) + ")"
+            out += "(" + ", ".join("%s: %s" % (n, sdl_value_str(v)) for n, v in d.args) + ")"
     return out
 
 
@@ -264,7 +284,7 @@ def _dep(dep):
         return ""
     if dep is True:
         return " @deprecated"
-    return " @deprecated(reason: %s)" % json.dumps(dep)
+    return " @deprecated(reason: %s)" % sdl_value_str(("str", dep))
 
 
 def arg_str(a):
@@ -273,7 +293,7 @@ def arg_str(a):
         s = '"""%s""" ' % a.description
     s += "%s: %s" % (a.name, tstr(a.type))
     if a.default is not ABSENT:
-        s += " = " + value_str(a.default)
+        s += " = " + sdl_value_str(a.default)
     return s + dirs_str(a.directives)
 
 
